@@ -124,11 +124,17 @@ func uncommitted(s site, mut string, orig, tampered *lib.Bundle) (bool, string) 
 }
 
 var (
-	reDeclareV0  = regexp.MustCompile(`^field:\.Block\.Transactions\[\]<Declare v[123]>\.Version:zero$`)
-	reL1NoNonce  = regexp.MustCompile(`^field:\.Block\.Transactions\[\]<L1Handler v0>\.Nonce:setnil$`)
-	reDeployAny  = regexp.MustCompile(`^field:\.Block\.Transactions\[\]<Deploy v[01]>\.`)
-	reDeclareV0F = regexp.MustCompile(`^field:\.Block\.Transactions\[\]<Declare v0>\.`)
+	reDeclareV0 = regexp.MustCompile(`^field:\.Block\.Transactions\[\]<Declare v[123]>\.Version:zero$`)
+	reL1NoNonce = regexp.MustCompile(`^field:\.Block\.Transactions\[\]<L1Handler v0>\.Nonce:setnil$`)
+	// only the fields the TRANSACTION HASH of these kinds would commit: the declared hash itself and
+	// the signature are bound by the transaction commitment and keep their own sigs
+	reDeployAny  = regexp.MustCompile(`^field:\.Block\.Transactions\[\]<Deploy v[01]>\.(ContractAddressSalt|ContractAddress|ClassHash|ConstructorCallData|Version)(\[\])?:`)
+	reDeclareV0F = regexp.MustCompile(`^field:\.Block\.Transactions\[\]<Declare v0>\.(ClassHash|SenderAddress|MaxFee|Nonce)(\[\])?:`)
+	reLongVer    = regexp.MustCompile(`^field:\.Block\.ProtocolVersion:wrapP(bump)?$`)
 )
+
+const panicSig = "block-verification-panics-on-field-missing-for-its-version"
+const panicWhat = "SanityCheckNewHeight panics with a nil pointer dereference, instead of returning an error, on a block in which a field that the declared (transaction or protocol) version requires is absent — e.g. a transaction whose version is switched so that MaxFee / CompiledClassHash / resource bounds are missing, or a nil-ed field; neither sync nor p2p sync recovers, so the node process dies"
 
 const oldRootSig = "new-backend-opens-state-at-supplied-old-root"
 
@@ -141,6 +147,9 @@ func knownRootCause(tc tamperCase, orig *lib.Bundle) (string, string) {
 	case reL1NoNonce.MatchString(tc.Name):
 		return "l1handler-nonce-removed-skips-tx-hash-verification",
 			"an L1-handler transaction whose Nonce is removed (nil) is not hash-verified in a block of any protocol version (l1HandlerTransactionHash returns the declared hash), so the block is stored with a transaction that does not match its hash"
+	case reLongVer.MatchString(tc.Name) && len(tc.Bundle.Block.ProtocolVersion) >= 32:
+		return "long-protocol-version-wraps-mod-p",
+			"the block hash commits felt.SetBytes(ProtocolVersion), which reduces modulo the field prime, while ParseBlockVersion ignores everything after the third part: a 40-byte version string with the same value mod P (same or bumped version prefix) gives the same block hash, passes CheckBlockVersion and is persisted"
 	case tc.Name == "field:.SU.OldRoot:zero":
 		return oldRootSig, "a block offered with StateUpdate.OldRoot = 0 instead of the head's state root was stored: the new state backend opens the state at the supplied OldRoot (zero = empty tries), so verifyComm compares that root with itself, and the diff happened to rewrite every leaf the empty tries lack"
 	case reDeployAny.MatchString(tc.Name), tc.Name == "compound:tx-replaced-by-legacy-deploy":
@@ -626,6 +635,11 @@ func singleFieldCases(g *lib.ChainGen, idx int) []tamperCase {
 			if old && !unc && !post07CommittedRe.MatchString(s.Norm) {
 				// the Pedersen formats commit far less (no receipts, prices, version string, state diff)
 				tc.MustReject, tc.ObserveOnly, tc.Why = false, true, post07Why
+				// … but the state diff is still bound through the state root: a change that alters
+				// what the commitment depends on must be rejected (judged with the abstract state)
+				if strings.HasPrefix(s.Norm, ".SU.StateDiff") && !stateNeutral(g, idx, c) {
+					tc.MustReject, tc.ObserveOnly, tc.Why = true, false, ""
+				}
 			}
 			out = append(out, tc)
 		}
@@ -738,18 +752,18 @@ func foreignChain(f lib.Flags, task chainTask, g *lib.ChainGen) (*lib.ChainGen, 
 func runTask(f lib.Flags, res *lib.Result, task chainTask, only *replay) {
 	g, err := buildChain(f, task)
 	if err != nil {
-		res.Note("generator (chain %d): %v", task.Chain, err)
+		res.Fatalf("generator (chain %d): %v", task.Chain, err)
 		return
 	}
 	fg, err := foreignChain(f, task, g)
 	if err != nil {
-		res.Note("generator (foreign chain %d): %v", task.Chain, err)
+		res.Fatalf("generator (foreign chain %d): %v", task.Chain, err)
 		fg = nil
 	}
 	n := openNode(g, task.DstNew, memory.New())
 	var ac *acceptChecker
 	if only == nil {
-		ac = newAcceptChecker(f, g)
+		ac = newAcceptChecker(f, res, g)
 		defer ac.close()
 	}
 	backend := "legacy"
@@ -865,6 +879,8 @@ func runTask(f lib.Flags, res *lib.Result, task chainTask, only *replay) {
 				case r.err != nil && !tc.MustReject && !tc.ObserveOnly:
 					// a field we list as uncommitted made the block invalid: the exception list is too wide
 					res.Hit("uncommitted-rejected:" + tc.Name)
+					res.Mismatch(lib.Mismatch{Sig: "exception-is-committed:" + tc.Name, Input: tc.Detail,
+						Model: "listed as uncommitted (exception theorem / table)", Impl: "rejected: " + class})
 				}
 				if r.err != nil && !r.hung {
 					if after != before || h1 != h0 || head1 != head0 {
@@ -897,6 +913,8 @@ func runTask(f lib.Flags, res *lib.Result, task chainTask, only *replay) {
 	}
 	// the chain the node ended with is the generated one: compare the head state with the abstract state
 	if only == nil && task.Slot == 0 && !task.Risky {
+		compareWithSource(res, g, n, task)
+		revertAndReoffer(res, g, n, task)
 		checkHeadState(res, n, g, task)
 	}
 }
@@ -905,7 +923,7 @@ func checkHeadState(res *lib.Result, n *node, g *lib.ChainGen, task chainTask) {
 	st := g.HeadState()
 	reader, closer, err := n.bc.HeadState()
 	if err != nil {
-		res.Note("head state: %v", err)
+		res.Fatalf("head state: %v", err)
 		return
 	}
 	defer closer()
@@ -960,13 +978,13 @@ func runOldRootDirected(f lib.Flags, res *lib.Result, dstNew bool) {
 	d1.StorageDiffs[a] = map[felt.Felt]*felt.Felt{*lib.F(1): lib.F(6)}
 	for i, d := range []*core.StateDiff{d0, d1} {
 		if _, err := g.Next(&lib.BlockSpec{Version: []string{"0.13.2", "0.14.0"}[i], Diff: d, NoTxs: true}); err != nil {
-			res.Note("generator (oldroot-directed): %v", err)
+			res.Fatalf("generator (oldroot-directed): %v", err)
 			return
 		}
 	}
 	n := openNode(g, dstNew, memory.New())
 	if r := offer(n, g.Bundles[0]); r.err != nil {
-		res.Note("oldroot-directed: block 0 rejected: %v", r.err)
+		res.Fatalf("oldroot-directed: block 0 rejected: %v", r.err)
 		return
 	}
 	backend := "legacy"
